@@ -213,7 +213,7 @@ def settle(pair, relay_ok=True, chunking="whole", rng=None, stop_before=None):
             break
 
 
-def run_roundtrip(tid, rc, chunking, direction, relay, rng, late=False):
+def run_roundtrip(tid, rc, chunking, direction, relay, rng, late=False, backpressure=False):
     logged = Logged()
     log.addObserver(logged)
     try:
@@ -228,6 +228,18 @@ def run_roundtrip(tid, rc, chunking, direction, relay, rng, late=False):
         sent = [rec, C.Ack(7)] + ([C.Close(3, 9), C.Ack(8)] if pair.F.late_select else [])
         ok_ready = src.p._can_send_records and dst.candidate > 0
         raised = []
+        if backpressure and not pair.F.late_select:
+            # the receiving application exerts back-pressure while the first of these records is being handed over (Inbound
+            # calls connection.pauseProducing()) and lets go again afterwards: what arrived in the same read must still come out
+            sent = sent + [C.Close(3, 9), C.Ack(8)]
+            seen = len(dst.records)
+            orig_append = dst.manager.got_record
+
+            def got_record(r, dst=dst, seen=seen):
+                orig_append(r)
+                if len(dst.records) == seen + 1:
+                    dst.p.pauseProducing()
+            dst.manager.got_record = got_record
         if ok_ready:
             for r in sent:
                 try:
@@ -235,6 +247,13 @@ def run_roundtrip(tid, rc, chunking, direction, relay, rng, late=False):
                 except Exception as e:          # send_record() of a legal record must not raise
                     raised.append("send_record: %r" % (e,))
             feed(pair, dst, drain_writes(pair, src), chunking, rng)
+            if backpressure and not pair.F.late_select:
+                try:
+                    dst.p.resumeProducing()
+                except Exception as e:
+                    raised.append("resumeProducing: %r" % (e,))
+                for dc in reactor.due():
+                    reactor.run_call(dc)
             if pair.F.late_select:
                 queued_before_select = len(dst.records) - before
                 pair.F.select_now()
@@ -245,7 +264,7 @@ def run_roundtrip(tid, rc, chunking, direction, relay, rng, late=False):
         return {"tid": tid, "kind": "roundtrip", "identical": ok_ready and got == sent, "got": len(got), "sent": len(sent),
                 "atFault": -1, "dropped": not dst.p.transport.connected or dst.p.transport.disconnecting, "stalled": False,
                 "candidate": dst.candidate > 0, "faultKind": "-", "internal": internal, "rc": rc, "chunking": chunking,
-                "direction": direction, "relay": relay, "late": bool(pair.F.late_select)}
+                "direction": direction, "relay": relay, "late": bool(pair.F.late_select), "backpressure": bool(backpressure)}
     finally:
         log.removeObserver(logged)
 
@@ -446,7 +465,7 @@ def run(prop, tier):
                         continue
                     tid += 1
                     records.append(run_roundtrip(tid, rc, chunking, direction, relay=(tid % 5 == 0), rng=random.Random(seed * 17 + tid),
-                                                 late=(tid % 3 == 0)))
+                                                 late=(tid % 3 == 0), backpressure=(tid % 4 == 1)))
         # two sessions at the same time in one process (every record class, both acceptance orders)
         nts = 0
         for rc in classes:
@@ -513,7 +532,8 @@ def replay(prop, path):
     if d["kind"] == "roundtrip" and d.get("sessions") == 2:
         rec = run_two_sessions(1, d["rc"], d["chunking"], random.Random(1), ("a", "b"))
     elif d["kind"] == "roundtrip":
-        rec = run_roundtrip(1, d["rc"], d["chunking"], d["direction"], d["relay"], random.Random(1), late=d.get("late", False))
+        rec = run_roundtrip(1, d["rc"], d["chunking"], d["direction"], d["relay"], random.Random(1), late=d.get("late", False),
+                            backpressure=d.get("backpressure", False))
     else:
         rec = run_fault(1, d["faultKind"], d["at"], 3, d["chunking"], d["direction"], d["relay"], random.Random(1), 0)
     print(json.dumps(rec, indent=1))
